@@ -302,6 +302,10 @@ func body(c cfg, r *run) func(*vsched.Exec) {
 			telem.ServeHTTP(httptest.NewRecorder(), httptest.NewRequest("POST", "/telemetry", bytes.NewReader([]byte(body))))
 		}
 		vsched.GoNamed("platform", func() {
+			if c.ExtraTelem {
+				// a cold start: the platform reports the init phase before the first invocation (no runtime-done record among these)
+				post(`[{"type":"platform.initStart"},{"type":"platform.initRuntimeDone"},{"type":"platform.initReport"}]`)
+			}
 			for k := 0; k < c.Invocations; k++ {
 				vsched.Send(r.nextCh, fmt.Sprint("req", k)) // the extension has asked for the next event: invoke
 				nb := 0
